@@ -196,7 +196,8 @@ def run_config(cfg):
             seg = mixed_bytes("seg", [4, frames.u16(n), n - 6])
             proto = 17
             field = seg[6:8]
-            ctx().assume(sym_not(field == b"\x00\x00"))
+            if not ipv6:
+                ctx().assume(sym_not(field == b"\x00\x00"))       # UDP/IPv4: 0 = no checksum computed (RFC 768), outside
         frame = _build(cfg, src, dst, seg, sym_bytes("trailer", cfg["trailer"]) if cfg.get("trailer") else None)
         pkt = tp.Packet(frame, 1.0)
         c = ctx()
@@ -211,6 +212,11 @@ def run_config(cfg):
             return {"outcome": "exception"}
         c.check(True, "no-exception")
         want = frames.receiver_accepts(ipv6, src, dst, proto, seg)
+        if cfg["proto"] == "udp" and ipv6:
+            # UDP/IPv6 has no "no checksum" value: a zero field with content that does not sum up is a bad packet like any other; the
+            # one zero field the RFC 1071 rule would accept (a sender must transmit it as 0xffff, RFC 8200) stays outside
+            from tlv.sx.core import sym_and as _and
+            c.assume(sym_not(_and(field == b"\x00\x00", want)))
         c.check(verdict == want if not isinstance(verdict, bool) or not isinstance(want, bool) else verdict == want,
                 "verdict-equals-rfc1071")
         return {"outcome": "verdict"}
